@@ -216,6 +216,26 @@ def gen_attr_programs():
                   'body': wdef + rep + mt + 'pub struct S { #[codec(encoded_as = "UntrackedRep")] a: W, b: u8 }\n'})
     progs.append({'name': 'memtrack_tracked_compact', 'kind': 'marker', 'expect': 'accept',
                   'body': mt + 'pub struct S { #[codec(compact)] a: u64, #[codec(encoded_as = "Compact<u32>")] b: u32, c: u8 }\n'})
+    # the custom bound of one derive does not leak into another: `decode_bound` replaces the bounds of Decode only, so the
+    # DecodeWithMemTracking impl still requires its own default bound on the parameter
+    nt = '#[derive(Encode, Decode)]\n#[codec(crate = ::parity_scale_codec)]\npub struct NoTrack(Vec<u8>);\n'
+    env = ('#[derive(Encode, Decode, DecodeWithMemTracking)]\n#[codec(crate = ::parity_scale_codec)]\n#[codec(decode_bound(T: Decode))]\n'
+           'pub struct Env<T>(pub T);\nfn need<X: DecodeWithMemTracking>() {}\n')
+    progs.append({'name': 'memtrack_decode_bound_not_tracking', 'kind': 'marker', 'expect': 'reject',
+                  'body': nt + env + 'pub fn f() { need::<Env<NoTrack>>(); }\n'})
+    progs.append({'name': 'memtrack_decode_bound_twin', 'kind': 'marker', 'expect': 'accept',
+                  'body': nt + env + 'pub fn f() { need::<Env<u32>>(); }\n'})
+    env2 = ('#[derive(Encode, Decode, DecodeWithMemTracking)]\n#[codec(crate = ::parity_scale_codec)]\n'
+            '#[codec(decode_with_mem_tracking_bound(T: DecodeWithMemTracking))]\n#[codec(decode_bound(T: Decode))]\n'
+            'pub struct Env<T>(pub T);\nfn need<X: DecodeWithMemTracking>() {}\n')
+    progs.append({'name': 'memtrack_own_bound_enforced', 'kind': 'marker', 'expect': 'reject',
+                  'body': nt + env2 + 'pub fn f() { need::<Env<NoTrack>>(); }\n'})
+    progs.append({'name': 'memtrack_own_bound_twin', 'kind': 'marker', 'expect': 'accept',
+                  'body': nt + env2 + 'pub fn f() { need::<Env<u64>>(); }\n'})
+    # an explicit bound does not switch off the per-field check: a field of a concrete untracked type is still refused
+    progs.append({'name': 'memtrack_custom_bound_untracked_field', 'kind': 'marker', 'expect': 'reject',
+                  'body': nt + '#[derive(Encode, Decode, DecodeWithMemTracking)]\n#[codec(crate = ::parity_scale_codec)]\n'
+                          '#[codec(decode_with_mem_tracking_bound(T: DecodeWithMemTracking))]\npub struct Env<T>(pub T, pub NoTrack);\n'})
     progs.append({'name': 'cel_option', 'kind': 'marker', 'expect': 'reject',
                   'body': 'fn need<T: parity_scale_codec::ConstEncodedLen>() {}\npub fn f() { need::<Option<u8>>(); }\n'})
     progs.append({'name': 'cel_compact', 'kind': 'marker', 'expect': 'reject',
@@ -345,6 +365,14 @@ def check_reexports(cx, out):
         if cfg == 'A':
             out.ob('W17.6', 'no derive macros without the feature [A]', not macros, 'derive macros exported without feature derive: %s' % sorted(macros), 'src/lib.rs')
     out.floor('W17.6', 'configurations whose crate root was read', len(cfgs), 2)
+    # W17.7: which definitions the macros accept, and what they generate, does not depend on the features the derive crate
+    # itself was built with: every function of the derive crate has the same body with all features and with `derive`
+    # alone (a `cfg!(feature = ..)` in a shared function shows up as a different body); only the MaxEncodedLen derive's own
+    # items may be missing
+    from . import c20
+    fd, fg = cx.facts('D', 'parity_scale_codec_derive'), cx.facts('G', 'parity_scale_codec_derive')
+    n = c20.compare(out, fd, fg, 'W17.7', [], [r'max_encoded_len', r'custom_mel_trait_bound'], [], 'derive crate D~G')
+    out.floor('W17.7', 'derive crate functions compared between feature sets', n, 60)
 
 
 def run(cx, out):
@@ -354,6 +382,7 @@ def run(cx, out):
     out.rule('W17.2', 'variant-count, attribute-conflict, union, CompactAs-shape programs and their twins')
     out.rule('W17.3', 'type-level witnesses: DecodeFinished cannot be forged; marker traits are enforced')
     out.rule('W17.6', 'the derive macros are reachable through the library whenever its feature `derive` is on (MaxEncodedLen: together with `max-encoded-len`)')
+    out.rule('W17.7', 'the derive crate accepts and generates the same with all features and with `derive` alone (bodies compared per function)')
     check_reexports(cx, out)
     # the artefacts come from the corpus fixture build of the current tree
     cx.need(['D'])
